@@ -377,7 +377,8 @@ Lemma step_simple_monitor m o c rest :
                            (m_vnow m) (m_vpersist m) (m_proofs m) (m_body m))
     | OSetInSync b => (0, set_insync m b)
     | ORestart =>
-        (0, MS (reload_pool m) (m_delivered m) (m_live m) (m_seen m) (m_vouched m) (m_conflicted m)
+        ((if c =? OK then 0 else 128),
+            MS (reload_pool m) (m_delivered m) (m_live m) (m_seen m) (m_vouched m) (m_conflicted m)
                (m_unsafe m) (m_safe m) (m_local m) (m_clock m) false (m_chain m) (m_vpersist m) (m_vpersist m)
                (m_proofs m) (m_body m))
     | OGetTx t => ((if mem t (m_delivered m) && negb (c =? OK) then 171 else 0), m)
